@@ -497,6 +497,50 @@ fn check_input_updated_while_held(rt: &tokio::runtime::Runtime) -> Verdict {
     }
 }
 
+/// Evaluations whose user function evaluates another ruleset *inline* (in the same task, so the two evaluations overlap
+/// in time on one thread), several of them at once on the runtime: each outer evaluation still makes each of its cacheable
+/// calls once, as it does when the inner evaluations are run beforehand.
+fn check_nested_evaluations(rt: &tokio::runtime::Runtime) -> Verdict {
+    for nest_cacheable in [false, true] {
+        let results = rt.block_on(watched("the nested-evaluation scenario did not finish", async {
+            let mut handles = vec![];
+            for _ in 0..6 {
+                let (outer, log) = rvv::probe::nested_evaluation(1, true, nest_cacheable);
+                handles.push(tokio::spawn(async move {
+                    let ok = outer.evaluate_value(&Value::None).await.map(|o| o.iter().all(|x| x.value.is_ok())).unwrap_or(false);
+                    let log = log.lock().unwrap().clone();
+                    (ok, log)
+                }));
+            }
+            let mut out = vec![];
+            for h in handles {
+                out.push(h.await.ok());
+            }
+            out
+        }));
+        let want = rvv::probe::nested_expected(nest_cacheable);
+        for r in results {
+            let got: Option<(bool, BTreeMap<(String, String), usize>)> = r.map(|(ok, log)| {
+                let mut m = BTreeMap::new();
+                for k in log {
+                    *m.entry(k).or_insert(0) += 1;
+                }
+                (ok, m)
+            });
+            match &got {
+                Some((true, m)) if *m == want => {}
+                other => {
+                    return Err(Issue::new(
+                        "threads:nested-evaluation",
+                        format!("an evaluation whose user function `nest` (cacheable: {nest_cacheable}) evaluates another ruleset inline, 6 of them at once: (all outcomes are values, invocations) = {other:?}; run one after another: (true, {want:?})"),
+                    ))
+                }
+            }
+        }
+    }
+    Ok(())
+}
+
 fn case_json(c: &Case) -> serde_json::Value {
     json!({"spec": spec_to_json(&c.spec), "n": c.n, "raw_threads": c.raw_threads, "repeat": c.repeat, "input_seed": c.input_seed.to_string(),
         "same_input": c.same_input, "abort_half": c.abort_half})
@@ -698,6 +742,15 @@ fn main() {
         }
         let j: serde_json::Value = serde_json::from_str(&text).expect("json");
         let case = j.get("case").cloned().unwrap_or(j);
+        if case.get("nested_evaluations").is_some() {
+            if let Err(i) = check_nested_evaluations(&rt) {
+                println!("DETAIL property=C18 sig={} {}", i.sig, i.msg);
+                println!("VIOLATION property=C18 replay={}", args[3]);
+                std::process::exit(1);
+            }
+            println!("REPLAY property=C18 holds on {}", args[3]);
+            return;
+        }
         if case.get("input_updated_while_held").is_some() {
             if let Err(i) = check_input_updated_while_held(&rt) {
                 println!("DETAIL property=C18 sig={} {}", i.sig, i.msg);
@@ -814,6 +867,20 @@ fn main() {
                     pacc.case("input-updated-while-held", true, || "evaluate(&struct with atomic fields) held between two rules while another thread updates the fields".to_string());
                     if let Err(issue) = r {
                         let case = json!({"input_updated_while_held": true});
+                        if let Err(issue) = ctx.triage(issue, &|| case.to_string()) {
+                            ctx.violation("threads", case, &issue);
+                            failed = true;
+                            break;
+                        }
+                    }
+                }
+            }
+            if !failed {
+                for _ in 0..3 {
+                    let r = check_nested_evaluations(&rt);
+                    pacc.case("nested-evaluations", true, || "a user function evaluates another ruleset inline; 6 such evaluations at once".to_string());
+                    if let Err(issue) = r {
+                        let case = json!({"nested_evaluations": true});
                         if let Err(issue) = ctx.triage(issue, &|| case.to_string()) {
                             ctx.violation("threads", case, &issue);
                             failed = true;
